@@ -36,7 +36,7 @@ IDENT = re.compile(r"^[A-Za-z_][A-Za-z0-9_]*(\.[A-Za-z_][A-Za-z0-9_]*)*$")
 # (bare, or nested in a list / dictionary argument); through a partial application; through a batch
 SHAPES = ["direct", "fnarg", "fnarg_nested", "partial", "batch"]
 EVOLUTIONS = ["unchanged", "edited", "removed", "renamed", "plain", "reclustered", "bumped", "edited_twice", "bumped_odd",
-              "reclustered_same_version", "signature_same_version", "signature_swapped", "signature_prepended"]
+              "reclustered_same_version", "signature_same_version", "signature_swapped", "signature_prepended", "aliased_same_version"]
 ODD_VERSIONS = ["a::b", "1:2#3", "1.link", "x#y", "v=1+2", "@", ":", "1.0-rc.1"]
 
 
@@ -64,6 +64,14 @@ def cases(tier, seed):
                         yield {"kind": "evolve", "seed": seed, "idx": k, "evolution": evo, "cluster": cluster, "cache": cache,
                                "shape": shape}
                         k += 1
+        for shape in ("direct", "fnarg"):  # the callee is a function nested in a class (module:Class.function)
+            for evo in EVOLUTIONS:
+                if evo == "bumped_odd":
+                    continue
+                for cluster in (None, "named.cl-1"):
+                    yield {"kind": "evolve", "seed": seed, "idx": k, "evolution": evo, "cluster": cluster, "cache": False,
+                           "shape": shape, "nested": True}
+                    k += 1
         for j in range(len(ODD_VERSIONS)):  # every odd explicit version, bumped, in both clusters
             for cluster in (None, "named.cl-1"):
                 yield {"kind": "evolve", "seed": seed, "idx": k, "evolution": "bumped_odd", "cluster": cluster, "cache": bool(j % 2),
@@ -272,10 +280,30 @@ def run_store(case, out, fail):
 
 
 # ---------------------------------------------------------------- evolutions
-def evo_module(cluster, stage, evolution, shape="direct", oddi=0):
+def evo_module(cluster, stage, evolution, shape="direct", oddi=0, nested=False):
+    src = _evo_module(cluster, stage, evolution, shape, oddi)
+    if not nested:
+        return src
+    # the callee becomes a static method of a class: its qualified name is module:Box.callee
+    out, lines, i = [], src.split("\n"), 0
+    while i < len(lines):
+        ln = lines[i]
+        is_deco = ln.startswith("@m.memento_function") and i + 1 < len(lines) and lines[i + 1].startswith("def callee")
+        if is_deco or ln.startswith("def callee"):
+            out += ["class Box:", "    @staticmethod"]
+            while i < len(lines) and lines[i].strip():
+                out.append("    " + lines[i])
+                i += 1
+            continue
+        out.append(re.sub(r"\bcallee(_v2)?(?=[(.,\]])", lambda mo: "Box." + mo.group(0), ln) if not ln.startswith("    REC.hit") else ln)
+        i += 1
+    return "\n".join(out)
+
+
+def _evo_module(cluster, stage, evolution, shape="direct", oddi=0):
     callee_v1 = '@m.memento_function(cluster=CL%s)\ndef callee(x):\n    REC.hit("callee", x)\n    return x + 1\n'
     ver1 = ', version="1"' if evolution in ("bumped", "reclustered_same_version", "signature_same_version", "signature_swapped",
-                                            "signature_prepended") else ""
+                                            "signature_prepended", "aliased_same_version") else ""
     if evolution == "bumped_odd":  # an explicit version with characters that mean something in qualified names / file names
         odd = ODD_VERSIONS[oddi % len(ODD_VERSIONS)]
         ver1 = ', version=%r' % odd
@@ -301,6 +329,10 @@ def evo_module(cluster, stage, evolution, shape="direct", oddi=0):
         callee = (callee_v1 % ', version="1"').replace("def callee(x):", "def callee(scale=1, x=0, extra=0):")
     elif evolution == "reclustered_same_version":  # moved to another cluster, its explicit version kept
         callee = callee_v1.replace("cluster=CL%s", 'cluster="elsewhere"%s') % ', version="1"'
+    elif evolution == "aliased_same_version":
+        # the function is gone; its name stays as another name for a different function that carries the same explicit version
+        callee = (callee_v1 % ', version="1"').replace("def callee(", "def other(").replace('"callee"', '"other"').replace(
+            "x + 1", "x + 100") + "\ncallee = other\n"
     elif evolution == "bumped":
         callee = callee_v1 % ', version="2"'
     elif evolution == "bumped_odd":
@@ -400,7 +432,7 @@ def run_evolve(case, out, fail):
     evolution, cluster = case["evolution"], case["cluster"]
     label = "evolution %s%s, callee reached %s, %s cluster, cache=%s" % (
         evolution, " (version %r)" % ODD_VERSIONS[case["odd"]] if "odd" in case else "", case.get("shape", "direct"),
-        "default" if cluster is None else "named", case["cache"])
+        "default" if cluster is None else "named", case["cache"]) + (", callee nested in a class" if case.get("nested") else "")
     with env.Scratch() as sc:
         modname = "vpevo_%d_%d" % (case["seed"], case["idx"])
         stages = 3 if evolution == "edited_twice" else 2
@@ -409,7 +441,7 @@ def run_evolve(case, out, fail):
             src = sc.path("src%d" % stage)
             os.makedirs(src)
             with open(os.path.join(src, modname + ".py"), "w") as f:
-                f.write(evo_module(cluster, stage, evolution, case.get("shape", "direct"), case.get("odd", 0)))
+                f.write(evo_module(cluster, stage, evolution, case.get("shape", "direct"), case.get("odd", 0), case.get("nested", False)))
             try:
                 order = ["call", "memento", "list_mementos", "list_functions"]
                 if stage > 0:
